@@ -3,7 +3,7 @@ From Verif Require Import Base.Str Base.Outcome Model.Ast Model.Token Model.Lexe
   Model.Listener Model.Printer.
 
 Inductive dsl_result :=
-| DOk (m : model) (exts : list (str * typedef)) (modular : bool)
+| DOk (m : model) (exts : list (str * (nat * typedef))) (modular : bool)
 | DSyntax (lexer_errors : nat) (parsed : bool)      (* errors reported by the ANTLR lexer/parser *)
 | DListener (errs : list lerror)                    (* only listener-raised errors *)
 | DPanic (why : str).
